@@ -1,4 +1,5 @@
 import Fips204.Lemmas.Kernels2
+import Fips204.Lemmas.Pr64Top
 /-!
 # C15 — Coefficient arithmetic is exact on its whole domain
 
@@ -28,19 +29,14 @@ theorem mont_reduce_spec (m : Mode) (a : Int) (h1 : -17996808479301632 ≤ a) (h
     ∃ r, mont_reduce m a = .ok r ∧ (r * 4294967296 - a) % Q = 0 ∧ -Q < r ∧ r < Q :=
   ⟨montv a, mont_reduce_eq m a h1 h2, (montv_spec a h1 h2).1, (montv_spec a h1 h2).2.1, (montv_spec a h1 h2).2.2⟩
 
-/-- full statement for the 64-bit Barrett-style reduction on its caller's shape `x << 32` -/
-def partial_reduce64_full : Prop :=
-  ∀ (m : Mode) (x : Int), -67058539 < x → x < 67058539 →
-    ∃ r, to_mont_coeff m x = .ok r ∧ (r - x * 4294967296) % Q = 0 ∧ -(2 * Q) < r ∧ r < 2 * Q
-
-/-- proved part: |x| ≤ 67_000_000 (every call site stays below 3.5e7); the remaining 58 538 values on each
-    side are within 119 units of an i64 overflow, out of reach of linear arithmetic; they are covered
-    exhaustively by the correspondence sweep (both build profiles) -/
-theorem partial_reduce64_partial (m : Mode) (x : Int) (h1 : -67000000 ≤ x) (h2 : x ≤ 67000000) :
+/-- the 64-bit Barrett-style reduction on its caller's shape `x << 32`, for **every** |x| below the documented bound
+    67 058 539: congruent and inside (-2q, 2q).  The middle of the domain is linear arithmetic; on the two top slices
+    (58 538 values each) the product `a * M` comes within 119 units of i64 overflow and the one fact needed there is
+    evaluated by the kernel for every value (`Lemmas/Pr64Top.lean`, `decide +kernel`, no additional axiom). -/
+theorem partial_reduce64_spec (m : Mode) (x : Int) (h1 : -67058539 < x) (h2 : x < 67058539) :
     ∃ r, to_mont_coeff m x = .ok r ∧ (r - x * 4294967296) % Q = 0 ∧ -(2 * Q) < r ∧ r < 2 * Q := by
-  refine ⟨pr64s x, to_mont_coeff_eq m x h1 h2, (pr64s_spec x h1 h2).1, ?_, ?_⟩
-  · have := (pr64s_spec x h1 h2).2.1; simp only [Q]; omega
-  · have := (pr64s_spec x h1 h2).2.2; simp only [Q]; omega
+  obtain ⟨he, hc, hl, hu⟩ := to_mont_coeff_full m x h1 h2
+  exact ⟨pr64s x, he, hc, by simp only [Q]; omega, by simp only [Q]; omega⟩
 
 /-- Power2Round (Algorithm 35) on Z_q, and the crate's reconstruction self-check holds -/
 theorem power2round_spec (m : Mode) (r : Int) (h0 : 0 ≤ r) (h1 : r < Q) :
